@@ -28,9 +28,16 @@ class G[T](State):
     tag: str = ""
 
 
+class U(State):
+    """required attribute of union type: default construction fails with an ExceptionGroup"""
+
+    v: int | str
+    tag: str = ""
+
+
 GI = G[int]
 
-FAMILY: dict[str, type[State]] = {"A": A, "A2": A2, "R": R, "G": GI}
+FAMILY: dict[str, type[State]] = {"A": A, "A2": A2, "R": R, "G": GI, "U": U}
 
 # supply alphabet: lists of type names (two entries of one type = two instances, last wins)
 SUPPLY = [
@@ -42,6 +49,11 @@ SUPPLY = [
     ["A", "R"],
     ["R", "A2"],
     ["G"],
+    # "A=" : an instance that is value-equal to (but a different object than) the A instance
+    #        supplied by the nearest enclosing block (a fresh A when there is none)
+    ["A", "A="],
+    ["A="],
+    ["U"],
 ]
 
 
@@ -51,6 +63,10 @@ def make_states(names: list[str], label: str) -> list[State]:
         tag = f"{label}.{i}"
         if n == "R":
             out.append(R(x=1, tag=tag))
+        elif n == "U":
+            out.append(U(v=1, tag=tag))
+        elif n == "A=":
+            out.append(A(tag=tag))  # callers re-tag it to equal the enclosing instance
         elif n == "G":
             out.append(GI(v=1, tag=tag))
         else:
@@ -176,7 +192,7 @@ def expected_state(env: list[dict], in_scope: bool, types=("A", "A2", "R", "G"))
                 out[f"{t_name}/{k}"] = ("inst", found)
             elif k == "d":
                 out[f"{t_name}/{k}"] = ("default-arg",)
-            elif t_name == "R":
+            elif t_name in ("R", "U"):
                 out[f"{t_name}/{k}"] = ("MissingState",)
             else:
                 out[f"{t_name}/{k}"] = ("constructed",)
